@@ -174,7 +174,15 @@ class CallMixin:
 
     # ------------------------------------------------------------------ calls
     def ex_Call(self, node, fr):
-        fv, fref = self.eval_ref(node.func, fr)
+        self._recv_value = None
+        if isinstance(node.func, ast.Attribute):
+            self.tick()
+            base, bref = self.eval_ref(node.func.value, fr)
+            fv, fref = self.getattr_ref(base, bref, node.func.attr, node.func, fr)
+            recv_value = base
+        else:
+            fv, fref = self.eval_ref(node.func, fr)
+            recv_value = None
         args = []
         for a in node.args:
             if isinstance(a, ast.Starred):
@@ -196,7 +204,11 @@ class CallMixin:
                     kwargs[f"**{len(kwargs)}"] = Star(v, True)
             else:
                 kwargs[k.arg] = v
-        return self.call_value(fv, fref, args, kwargs, node, fr)
+        self._recv_value = recv_value
+        try:
+            return self.call_value(fv, fref, args, kwargs, node, fr)
+        finally:
+            self._recv_value = None
 
     def call_name(self, fv, fref, node) -> str:
         if isinstance(fv, FuncRef):
@@ -239,7 +251,7 @@ class CallMixin:
         elif isinstance(fv, Sym):
             qual = fv.name
         data = dict(discarded=(node is getattr(self, "_stmt_call", None)), name=name, qual=qual, callee=fv, recv=recv, recv_ref=recv_ref, method=method, args=list(args),
-                    kwargs=dict(kwargs), field=self.field_of(recv_ref) if recv_ref is not None else None,
+                    kwargs=dict(kwargs), field=self.field_of(recv_ref) if recv_ref is not None else None, recv_value=getattr(self, "_recv_value", None),
                     text=ast.unparse(node.func) if hasattr(node, "func") else name)
         eff = self.effect("call", node, fr, **data)
         # may-raise fork requested by the rule
